@@ -221,19 +221,15 @@ Proof.
 Qed.
 
 (* ------------------------------------------------------------------ rows of the matrix *)
-Definition all_located (t : turbo) (sb : list bool) (pts : list (list Q)) : Prop :=
-  Forall (fun c => p_located (proj_point t sb c) = true) pts.
 Definition row_spec (t : turbo) (sb : list bool) (coor : list Q) : list (Z * Q) :=
   match p_found (proj_point t sb coor) with Some f => entries_of f | None => [] end.
 
 Lemma turbo_loop_rows_ge t sb : forall pts iech e, In e (fst (turbo_loop t sb pts iech)) -> (iech <= fst e)%nat.
 Proof.
   induction pts as [|c pts IH]; intros iech e H; [destruct H|].
-  cbn [turbo_loop] in H. destruct (p_located (proj_point t sb c)).
-  - cbn [fst] in H. destruct (p_found (proj_point t sb c)).
-    + destruct H as [H|H]; [subst e; cbn [fst]; lia|]. specialize (IH _ _ H). lia.
-    + specialize (IH _ _ H). lia.
-  - cbn [fst] in H. apply (IH _ _ H).
+  cbn [turbo_loop fst] in H. destruct (p_found (proj_point t sb c)).
+  - destruct H as [H|H]; [subst e; cbn [fst]; lia|]. specialize (IH _ _ H). lia.
+  - specialize (IH _ _ H). lia.
 Qed.
 
 Lemma row_of_nil trip r : (forall e, In e trip -> fst e <> r) -> row_of trip r = [].
@@ -244,13 +240,11 @@ Proof.
   - cbn [app]. apply IH. intros e' He'. apply H. right. exact He'.
 Qed.
 
-Lemma turbo_loop_rows t sb : forall pts iech, all_located t sb pts ->
-  forall k, (k < length pts)%nat ->
+Lemma turbo_loop_rows t sb : forall pts iech k, (k < length pts)%nat ->
   row_of (fst (turbo_loop t sb pts iech)) (iech + k) = row_spec t sb (nth k pts []).
 Proof.
-  induction pts as [|c pts IH]; intros iech Hloc k Hk; [cbn in Hk; lia|].
-  inversion Hloc as [|? ? Hc Hrest]; subst.
-  cbn [turbo_loop]. rewrite Hc. cbn [fst].
+  induction pts as [|c pts IH]; intros iech k Hk; [cbn in Hk; lia|].
+  cbn [turbo_loop fst].
   destruct k as [|k].
   - rewrite Nat.add_0_r. cbn [nth]. unfold row_spec.
     assert (Hnil : row_of (fst (turbo_loop t sb pts (S iech))) iech = []).
@@ -263,18 +257,28 @@ Proof.
     destruct (p_found (proj_point t sb c)) as [f|].
     + unfold row_of at 1. cbn [flat_map fst snd].
       destruct (Nat.eqb_spec iech (S iech + k)) as [E|E]; [lia|]. cbn [app].
-      apply IH; [exact Hrest|lia].
-    + apply IH; [exact Hrest|lia].
+      apply IH; lia.
+    + apply IH; lia.
 Qed.
 
-(* when every sample is located on the grid, row k of the matrix is the row of sample k *)
+(* row k of the matrix is the row of sample k, whatever the samples (on the grid or not) *)
 Lemma rows_aligned t pts k :
-  all_located t (selbis t) pts -> (k < length pts)%nat ->
+  (k < length pts)%nat ->
   nth k (fst (proj_turbo t pts)) [] = row_spec t (selbis t) (nth k pts []).
 Proof.
-  intros Hloc Hk. unfold proj_turbo. cbn [fst].
+  intros Hk. unfold proj_turbo. cbn [fst].
   rewrite (nth_map_seq _ (length pts) k [] Hk).
-  apply (turbo_loop_rows t (selbis t) pts 0 Hloc k Hk).
+  apply (turbo_loop_rows t (selbis t) pts 0 k Hk).
+Qed.
+Lemma rows_count t pts : length (fst (proj_turbo t pts)) = length pts.
+Proof. unfold proj_turbo. cbn [fst]. rewrite map_length, seq_length. reflexivity. Qed.
+(* in particular a sample outside the grid has an empty row *)
+Lemma row_outside_empty t pts k :
+  (k < length pts)%nat -> fst (C16.Model.c2i (t_grid t) (nth k pts []) false eps6) = true ->
+  nth k (fst (proj_turbo t pts)) [] = [].
+Proof.
+  intros Hk Ho. rewrite rows_aligned by exact Hk. unfold row_spec.
+  destruct (proj_point_outside t (selbis t) _ Ho) as [_ E]. rewrite E. reflexivity.
 Qed.
 
 (* ------------------------------------------------------------------ a point of a cell gets a row *)
